@@ -36,6 +36,11 @@ pub struct LogAppender {
     pub log: EventLog,
 }
 
+thread_local! {
+    /// when set, every failing [`LogAppender`] on this thread reports the same text ("disk full")
+    pub static SAME_ERROR_TEXT: std::cell::Cell<bool> = const { std::cell::Cell::new(false) };
+}
+
 #[derive(Debug)]
 pub struct TaggedError(pub String);
 impl std::fmt::Display for TaggedError {
@@ -52,6 +57,9 @@ impl Append for LogAppender {
             msg: format!("{}", record.args()),
         });
         if self.fail {
+            if SAME_ERROR_TEXT.with(|c| c.get()) {
+                return Err(TaggedError("disk full".into()).into());
+            }
             Err(TaggedError(format!("fail-{}", self.id)).into())
         } else {
             Ok(())
